@@ -164,44 +164,54 @@ Proof.
   destruct (g (f x)); rewrite ?lenZ_cons, IH; reflexivity.
 Qed.
 
-Lemma pool_lse_owned pods c : pool_of pods c = Q_LSE -> lse_owned pods c = true.
+(* the repaired map: a cpu is classified LSE exactly when some LSE pod lists it, whatever the
+   order of the pods *)
+Lemma pool_fold_lse c : forall pods cur,
+  fold_left (pool_step c) pods cur = Q_LSE <-> cur = Q_LSE \/ lse_owned pods c = true.
 Proof.
-  unfold lse_owned. induction pods as [|p t IH]; cbn [pool_of existsb]; intros H; [discriminate|].
-  destruct (negb (pool_of t c =? Q_NONE)) eqn:E.
-  - rewrite (IH H). apply orb_true_r.
-  - destruct (memZ c (c_cpus p)) eqn:Em; [|discriminate].
-    destruct (c_lab p =? Q_NONE) eqn:El; [discriminate|].
-    rewrite H. reflexivity.
+  unfold lse_owned. induction pods as [|p t IH]; intros cur; cbn [fold_left existsb].
+  - split; [intros H; left; exact H | intros [H|H]; [exact H | discriminate]].
+  - rewrite IH. unfold pool_step, pool_entry.
+    destruct (memZ c (c_cpus p)) eqn:Em.
+    + destruct (cur =? Q_LSE) eqn:Ec.
+      * apply Z.eqb_eq in Ec. split; intros _; [left; exact Ec | left; exact Ec].
+      * apply Z.eqb_neq in Ec. rewrite andb_true_r.
+        destruct (c_lab p =? Q_NONE) eqn:El.
+        -- apply Z.eqb_eq in El. rewrite El. cbn [Z.eqb Q_NONE Q_LSE orb].
+           split; [intros [H|H]; [discriminate | right; exact H] | intros [H|H]; [contradiction | right; exact H]].
+        -- destruct (c_lab p =? Q_LSE) eqn:E1; cbn [orb].
+           ++ apply Z.eqb_eq in E1. split; intros _; [right; reflexivity | left; exact E1].
+           ++ apply Z.eqb_neq in E1.
+              split; [intros [H|H]; [contradiction | right; exact H] | intros [H|H]; [contradiction | right; exact H]].
+    + rewrite andb_false_r. cbn [orb]. reflexivity.
 Qed.
 
-(* well-formed input of adjustByCPUSet: processor ids are distinct and the pod annotations do
-   not let a later pod of another class claim a cpu of an LSE pod *)
-Definition adjust_wf (i : ainput) : Prop := NoDup (map cpu (a_procs i)) /\ consistent i = true.
-
-Lemma consistent_pool i p : consistent i = true -> In p (a_procs i) ->
-  (pool_of (a_pods i) (cpu p) =? Q_LSE) = lse_owned (a_pods i) (cpu p).
+Lemma pool_lse_iff pods c : (pool_of pods c =? Q_LSE) = lse_owned pods c.
 Proof.
-  intros Hc Hp. unfold consistent in Hc. rewrite forallb_forall in Hc.
-  specialize (Hc (cpu p) (in_map cpu _ _ Hp)). unfold lse_overwritten in Hc.
-  destruct (pool_of (a_pods i) (cpu p) =? Q_LSE) eqn:E.
-  - apply Z.eqb_eq in E. symmetry. apply pool_lse_owned. exact E.
-  - destruct (lse_owned (a_pods i) (cpu p)); [discriminate | reflexivity].
+  unfold pool_of. pose proof (pool_fold_lse c pods Q_NONE) as H.
+  destruct (fold_left (pool_step c) pods Q_NONE =? Q_LSE) eqn:E.
+  - apply Z.eqb_eq in E. apply H in E. destruct E as [E|E]; [discriminate | symmetry; exact E].
+  - apply Z.eqb_neq in E. destruct (lse_owned pods c) eqn:L; [|reflexivity].
+    exfalso. apply E. apply H. right. reflexivity.
 Qed.
 
-Lemma pool_unprotected i p : consistent i = true -> In p (a_procs i) ->
+(* well-formed input of adjustByCPUSet: processor ids are distinct *)
+Definition adjust_wf (i : ainput) : Prop := NoDup (map cpu (a_procs i)).
+
+Lemma pool_unprotected i p :
   eligible i p && negb (pool_of (a_pods i) (cpu p) =? Q_LSE) = negb (protected i (cpu p)).
 Proof.
-  intros Hc Hp. rewrite (consistent_pool i p Hc Hp). unfold eligible, protected.
+  rewrite pool_lse_iff. unfold eligible, protected.
   destruct (lse_owned (a_pods i) (cpu p)), (memZ (cpu p) (a_reserved i)), (memZ (cpu p) (a_sysexcl i));
     reflexivity.
 Qed.
 
 Lemma pools_count i : adjust_wf i -> lenZ (lsr_pool i) + lenZ (ls_pool i) = lenZ (free_cpus i).
 Proof.
-  intros [Hnd Hc]. unfold free_cpus. rewrite (nodup_fixed_point Z.eq_dec Hnd).
+  intros Hnd. unfold adjust_wf in Hnd. unfold free_cpus. rewrite (nodup_fixed_point Z.eq_dec Hnd).
   rewrite filter_map_len. unfold lsr_pool, ls_pool.
   apply filter_split_len; intros p Hp.
-  - rewrite <- (pool_unprotected i p Hc Hp).
+  - rewrite <- (pool_unprotected i p).
     destruct (eligible i p), (pool_of (a_pods i) (cpu p) =? Q_LSR) eqn:E1,
              (pool_of (a_pods i) (cpu p) =? Q_LSE) eqn:E2; try reflexivity.
     apply Z.eqb_eq in E1. apply Z.eqb_eq in E2. rewrite E1 in E2. discriminate.
@@ -226,15 +236,15 @@ Proof.
 Qed.
 
 (* every cpu of either pool exists and is not protected *)
-Lemma pool_cpu_ok i c : consistent i = true ->
+Lemma pool_cpu_ok i c :
   In c (map cpu (lsr_pool i)) \/ In c (map cpu (ls_pool i)) ->
   In c (map cpu (a_procs i)) /\ protected i c = false.
 Proof.
-  intros Hc [H|H]; apply in_map_iff in H; destruct H as [p [<- Hp]].
+  intros [H|H]; apply in_map_iff in H; destruct H as [p [<- Hp]].
   - destruct (lsr_pool_in i p Hp) as [H1 [H2 H3]]. split; [apply in_map; exact H1|].
-    apply negb_true_iff. rewrite <- (pool_unprotected i p Hc H1). rewrite H2, H3. reflexivity.
+    apply negb_true_iff. rewrite <- (pool_unprotected i p). rewrite H2, H3. reflexivity.
   - destruct (ls_pool_in i p Hp) as [H1 [H2 [H3 H4]]]. split; [apply in_map; exact H1|].
-    apply negb_true_iff. rewrite <- (pool_unprotected i p Hc H1). rewrite H2.
+    apply negb_true_iff. rewrite <- (pool_unprotected i p). rewrite H2.
     apply Z.eqb_neq in H4. rewrite H4. reflexivity.
 Qed.
 
@@ -259,7 +269,7 @@ Lemma be_cpuset_spec i be : adjust_wf i -> be_cpuset i = Some be ->
   NoDup be /\ unprotected_existing i be /\ lenZ be <= target i
   /\ (target i <= lenZ (free_cpus i) -> lenZ be = target i).
 Proof.
-  intros Hwf Hbe. pose proof Hwf as [Hnd Hc].
+  intros Hwf Hbe. pose proof Hwf as Hnd. unfold adjust_wf in Hnd.
   pose proof (pools_count i Hwf) as Hcount.
   unfold be_cpuset in Hbe.
   destruct (lenZ (lsr_pool i) + lenZ (ls_pool i) =? 0) eqn:E0; [discriminate|].
@@ -297,7 +307,7 @@ Proof.
     apply in_map_iff in H2. destruct H2 as [q [Hq1 Hq2]].
     destruct (lsr_pool_in i p Hp2) as [_ [_ H3]]. destruct (ls_pool_in i q Hq2) as [_ [_ [H4 _]]].
     apply H4. rewrite Hq1, <- Hp1. exact H3.
-  - intros c Hin. apply in_app_or in Hin. apply (pool_cpu_ok i c Hc).
+  - intros c Hin. apply in_app_or in Hin. apply (pool_cpu_ok i c).
     destruct Hin as [H|H]; [left; exact (Hl2 c H) | right; exact (Hs2 c H)].
   - rewrite lenZ_app. lia.
   - intros Hle. rewrite lenZ_app. rewrite <- Hcount in Hle.
